@@ -174,6 +174,20 @@ pub fn run_crash(prop: &str, seed: u64, index: usize, tier: Tier) -> RunReport {
                 fault: Fault::Crash { at: crash_point_of(&d, p, None), second: None, cont: o.cont_used.clone() },
             });
         }
+        // C12: a crash inside a batch, then an entry of exactly the missing size right behind the torn fragments
+        if prop == "C12" && p.b < d.steps.len() && (p.byte.is_some() || p.eff_in_op > 0) && rep.found.is_empty() {
+            if let Some(cont) = crate::crash::continuation_filling_the_gap(&d, p.b, &image) {
+                let o3 = test_process_crash(&d, &case, p.b, &image, Cont::Explicit(&cont), &mut stats, None);
+                rep.evaluations += 1;
+                rep.count("torn_batch_then_entry_of_the_missing_size", 1);
+                for f in o3.failures.iter().filter(|f| f.prop == prop) {
+                    rep.found.push(Found {
+                        prop: prop.to_string(), clause: f.clause.clone(), detail: f.detail.clone(), case: case.clone(),
+                        fault: Fault::Crash { at: crash_point_of(&d, p, None), second: None, cont: cont.clone() },
+                    });
+                }
+            }
+        }
         // C12: power loss under Always(FlushAndFsync)
         if prop == "C12" && p.b < d.steps.len() && matches!(d.steps[p.b].policy, crate::model::Policy::Always { fsync: true }) {
             for k in 2..4u64 {
